@@ -1,4 +1,5 @@
 import HavocVerif.Lemmas.CanIReadIff
+import HavocVerif.Gen.SrcLines
 import HavocVerif.Lemmas.Utf16
 import HavocVerif.Spec.C03
 import HavocVerif.Lemmas.Register
@@ -184,5 +185,15 @@ theorem register_reply (ksFor : Bytes → Bytes → KeyStream) (key iv : Bytes) 
   · simp [hz, Havoc.xcrypt_involutive]
 
 example : strKinds = [ReadType.bytes, .bytes, .bytes, .bytes, .bytes] ∧ numKinds.length = 16 := by decide
+
+/-- regenerated from pkg/common/util.go on every run: `DecodeUTF16` pairs the bytes little endian, ignores a dangling
+    odd byte (`u16sOf`), and hands the WHOLE unit sequence to `utf16.Decode` in one call (`utf16Decode`), so a surrogate
+    pair is never split by a block boundary, whatever the length -/
+theorem decodeUTF16_transcribed :
+    Gen.SrcLines.decodeUTF16 =
+      ["DecodeUTF16(b []byte) string",
+       "var u16s = make([]uint16, 0, len(b)/2)",
+       "for i := 0; i+1 < len(b); i += 2 { u16s = append(u16s, uint16(b[i])+(uint16(b[i+1])<<8)) }",
+       "return string(utf16.Decode(u16s))"] := rfl
 
 end Havoc.C03
